@@ -45,11 +45,20 @@ ERR = {0: None, 1: "ValueError", 2: "KeyError", 9: "other"}
 
 
 def tlc_outcomes(w, cfgs, rep, label):
+    """Model outcomes for the configurations; None for a configuration whose arithmetic overflows TLC's integers."""
+    def skip(_c):
+        rep.cov["skipped_overflow"] = rep.cov.get("skipped_overflow", 0) + 1
+    return tlc.eval_with_bisect(lambda items: _tlc_outcomes(w, items, rep, label), cfgs, skip)
+
+
+def _tlc_outcomes(w, cfgs, rep, label):
     with open(os.path.join(w, "SessionCases.tla"), "w") as fh:
         fh.write(sr.cases_module(cfgs))
     with open(os.path.join(w, "se.cfg"), "w") as fh:
         fh.write(CFG)
     r = tlc.run(w, "MC_Session", "se.cfg", workers=16, timeout=3000)
+    if r.violated == "evaluation-error" and "Overflow when computing" in r.out:
+        raise tlc.Overflow()
     rep.add_mc(r, label)
     if not r.ok:
         raise tlc.TLCError("the specification itself violates %s (spec error); last state: %s" % (
@@ -291,6 +300,8 @@ def run(prop, replay_file=None):
     desc, pred = NONTRIVIAL[prop]
     nontriv = 0
     for i, (c, exp, out) in enumerate(zip(cfgs, exps, outs)):
+        if exp is None:
+            continue
         rep.cov["evaluations"] += 1
         if pred(features(c, exp)):
             nontriv += 1
